@@ -17,6 +17,20 @@ pub fn call(op: &str, e: &Ev) -> Option<Out> {
     Some(match op {
         "curve25519" => Out::Val(curve25519(&a32(e, "n"), &a32(e, "p")).to_vec()),
         "curve25519_base" => Out::Val(curve25519_base(&a32(e, "n")).to_vec()),
+        "curve25519_chain" => {
+            // RFC 7748 section 5.2 iteration: k = u = 9; k, u = X25519(k, u), k; returns k_1 || ... || k_n
+            let mut k = [0u8; 32];
+            k[0] = 9;
+            let mut u = k;
+            let mut out = Vec::new();
+            for _ in 0..get_usize(e, "n") {
+                let r = curve25519(&k, &u);
+                u = k;
+                k = r;
+                out.extend_from_slice(&k);
+            }
+            Out::Val(out)
+        }
         "x25519_dh" => {
             let sk = x25519::SecretKey::from(a32(e, "n"));
             let pk = x25519::PublicKey::from(a32(e, "p"));
